@@ -104,6 +104,15 @@ void run_with(vf::Ctx& c, vf::RunCfg<T> const& cfg, char const* engine_name)
                     thrown = false;
                     try { copy2.rollback(n + 18); } catch (std::out_of_range const&) { thrown = true; }
                     VF_CHECK(c, thrown, "C15:too-large-accepted", after << ": rollback far beyond the number of results was accepted");
+                    // values that only differ from a valid k in the upper half of a 64-bit size_t, and the largest ones
+                    for (std::size_t big : {(std::size_t(1) << 32), (std::size_t(1) << 32) + n, (std::size_t(3) << 32) + (n ? n - 1 : 0), ~std::size_t(0), ~std::size_t(0) - 1})
+                    {
+                        Chk copy3 = sut;
+                        thrown = false;
+                        try { copy3.rollback(big); } catch (std::out_of_range const&) { thrown = true; }
+                        VF_CHECK(c, thrown, "C15:too-large-accepted", after << ": rollback(" << big << ") of a checkpoint with " << n << " results was accepted");
+                        VF_CHECK(c, vf::text_of(copy3) == got, "C15:rejected-rollback-changed-state", after << ": rejected rollback(" << big << ") changed the checkpoint");
+                    }
                     continue;
                 }
                 copy.rollback(k);
